@@ -218,11 +218,41 @@ def large_cases(draw, tier):
             "batched": True}
 
 
+@st.composite
+def reuse_cases(draw, tier):
+    """ONE KemenyComputingFactory scoring several (dataset, candidate) pairs in sequence, each dataset object scored
+    several times: every score must be the one a fresh factory / dataset gives"""
+    scheme = draw(gen.any_schemes())
+    items = []
+    for _ in range(draw(st.sampled_from([2, 3, 4]))):
+        ds = draw(gen.datasets(max_n=6, max_m=4))
+        univ = oracle.universe(ds["rankings"])
+        items.append({"dataset": ds, "cands": [draw(gen.candidates(univ, foreign_for(univ, draw(st.sampled_from([0, 0, 1])))))
+                                               for _ in range(draw(st.sampled_from([1, 2, 3])))]})
+    return {"scheme": scheme, "items": items, "order": draw(st.permutations(list(range(len(items)))))}
+
+
+def check_reuse(case, ctx):
+    scheme = case["scheme"]
+    s = lib.mk_scheme(scheme)
+    kc = lib.KemenyComputingFactory(s)
+    objs = [lib.mk_dataset(it["dataset"]["rankings"]) for it in case["items"]]
+    insts = [oracle.Instance(it["dataset"]["rankings"], scheme) for it in case["items"]]
+    ctx.stats.case(case, len(case["items"]) >= 3, ["items:%d" % len(case["items"])])
+    for rnd in range(2):
+        for k in list(case["order"]) + list(reversed(case["order"])):
+            for cand in case["items"][k]["cands"]:
+                got = lib.must(kc.get_kemeny_score, lib.mk_ranking(cand), objs[k])
+                lib.check_score(got, insts[k].score(cand), scheme,
+                                "get_kemeny_score(%s) on dataset %d of a reused factory (pass %d)" % (cand, k, rnd))
+
+
 def subchecks():
     return [
         HypSub("score_random", score_cases, check_score, quick=12000, thorough=200000),
         HypSub("score_refusal", refusal_cases, check_refusal, quick=1500, thorough=30000),
         HypSub("consensus_lazy", lazy_cases, check_lazy, quick=1500, thorough=30000),
+        HypSub("factory_reuse", reuse_cases, check_reuse, quick=1500, thorough=20000),
         HypSub("score_large", large_cases, check_score, quick=400, thorough=5000),
         EnumSub("small_scope", small_datasets, check_small),
     ]
